@@ -16,6 +16,8 @@ CLAIMED = {
          "stdlib codecs are trusted stubs (stubs/stdlib.py); datagram endpoints/transports (one recv/send per call) are not yet under contract; OS and asyncio queue preserve datagram boundaries (assumed)"),
  "C06": ("§4 C06", "Exception flow: for every deserialize / incremental_deserialize / buffered_incremental_deserialize under contract and for the protocol and consumer layers the obligation `exits subset-of declared parse errors` is discharged path by path against the real exception class lattice; every error postcondition carries the remainder and, where stated, strict progress.",
          "raise-sets of stdlib decoders are assumed contracts (stubs/stdlib.py: str(), json, struct, base64, pickle = any Exception); JSON raw framing, file-based and compressor framings are assumed/bounded; termination of the one-shot path is by construction (no loop)"),
+ "C12": ("§4 C12", "Lock discipline of the asynchronous send paths: AsyncStreamEndpoint.send_packet and the low-level server client write only while their send guard is held, refuse a second entrant with BusyResourceError without writing, and release the guard on every exit; the server-side client object writes only under its send lock and, under the rely invariant 'guard held only under the lock', never finds the guard busy; the TLS write backlog is drained FIFO without loss or duplication across SSLWantRead/Write interruptions; order inside one send is C04.",
+         "mutual exclusion of the backend lock is assumed (Lock model); FairLock is a BOUNDED stand-in (drivers/fair_lock.py, 6318 schedules); AsyncTCPNetworkClient.send_packet / the blocking clients' threading locks are not under contract; from discipline to 'contiguous on the wire' is the written critical-section argument"),
  "C14": ("§4 C14", "On every exit path - normal, failing, and CancelledError delivered at any suspension point - of aclose_forcefully, the stapled close helper, AsyncTLSStreamTransport.aclose/wrap, the three stream endpoints, the datagram endpoint, the low-level server client, the high-level server-side client and the async TCP/UDP clients, the wrapped transport's close has been requested (ghost close_requested); both halves of a stapled transport are closed even if the first close fails.",
          "abstract transport aclose() requests the close on entry (assumed); cancellation only at suspension points of the backend models; cancel scopes swallow only their own body's CancelledError; lock/guard coupling is a rely invariant; the asyncio socket adapter's aclose and promptness of a second close are not covered; KNOWN FINDING F7 (three call sites) is reported, not repaired"),
  "C19": ("§4 C19", "Socket ownership: every exit of _create_connection_impl (normal, all attempts failed, cancelled at the await, unexpected BaseException from socket()/bind()/setblocking()) leaves exactly the returned socket open (loop invariants on the count of open sockets); try_connect hands its socket over as the winner or closes it, under the rely condition that concurrent attempts only set a winner they own, and signals completion on every exit.",
